@@ -191,6 +191,51 @@ pub fn run(ctx: &mut Ctx) {
             must_be_literal(ctx, "short-key", &v, &ds[2]);
         }
     }
+    // dispatch side, negative form: a single-key object keyed by an operator name is never
+    // returned as a literal, whatever its operands are (wrong counts and shapes included)
+    let v0 = al::v0();
+    for name in OPS {
+        if !ctx.mine() {
+            continue;
+        }
+        let mut shapes: Vec<Value> = Vec::new();
+        for n in 0..=6usize {
+            shapes.push(Value::Array(crate::spaces::c03::benign(name, n)));
+        }
+        for n in 0..=2usize {
+            for t in al::tuples(&v0, n) {
+                shapes.push(Value::Array(t));
+            }
+        }
+        shapes.extend(al::v1().into_iter().filter(|x| !x.is_array()));
+        for args in shapes {
+            let r = al::obj1(name, args);
+            for d in [&ds[0], &ds[2]] {
+                ctx.edge();
+                let o = ctx.exec(&r, d);
+                let (exp, _) = refmodel::reference(&r, d);
+                let returned_itself = o.ok() == Some(&r);
+                let legit = exp == refmodel::Exp::Val(r.clone());
+                ctx.record(
+                    "dispatch:never-a-literal",
+                    &r,
+                    d,
+                    &o,
+                    if returned_itself && !legit { Some(("an evaluated result or an error (the key is an operator name)".into(), o.show())) } else { None },
+                );
+                // ... also when it sits in operand position
+                let r2 = json!({"if": [r]});
+                let o2 = ctx.exec(&r2, d);
+                ctx.record(
+                    "dispatch:never-a-literal:operand",
+                    &r2,
+                    d,
+                    &o2,
+                    if o2.ok() == Some(&r) && !legit { Some(("an evaluated result or an error (the key is an operator name)".into(), o2.show())) } else { None },
+                );
+            }
+        }
+    }
     // dispatch side: each name is an operation, and the right one
     if ctx.mine() {
         let d = json!({"a": 1, "s": "SECRET", "xs": [1, 2, 3]});
